@@ -1475,6 +1475,25 @@ pub fn gen_c02(thorough: bool, seed: u64) -> Vec<Episode> {
             eps.push(Episode { n: n1.max(n2), tys: "lut", ops });
         }
     }
+    // the parser on every single digit for the sizes whose table is smaller than a digit (n = 0, 1), and on every
+    // pair of digits for n = 2, 3: whatever it accepts must be a well-formed table
+    for n in 0..=3usize {
+        let w = hex_width(n);
+        let mut ops = Vec::new();
+        let digits = b"0123456789abcdefABCDEF";
+        if w == 1 {
+            for &d in digits.iter() {
+                ops.push(from_hex(0, n, &[d]));
+            }
+        } else {
+            for &d1 in digits.iter().step_by(3) {
+                for &d2 in digits.iter().step_by(2) {
+                    ops.push(from_hex(0, n, &[d1, d2]));
+                }
+            }
+        }
+        eps.push(Episode { n, tys: tys_for(n), ops });
+    }
     eps
 }
 
